@@ -25,7 +25,10 @@ FAMILY = "transfermw"
 SPEC_DIR = os.path.join(vk.SPEC, "transfermw")
 PROPS = ["C41", "C42", "C43"]
 # monitor failures of these ids are reported too (judged by another family's property via "also" in its registry entry)
-DIAG_PROPS = ["C44"]
+# C30 (ICS-20 conservation): the per-channel balance / native supply clauses of Trace_PFM along forward routes; the ics20
+# family's registry entry for C30 lists this family under "also".  The denominations of the PFM world (utoka..utokd) are never
+# hop-shaped, so the input class of KF-C30-1 cannot occur here and match_known never matches a C30 failure.
+DIAG_PROPS = ["C44", "C30"]
 
 # state of the real chains after the set-up of harness/transfermw/rl.go (checked by the trace spec's X monitors)
 RL_INIT = dict(SUPN=4000, SUPV=1000, NS_AB=2, NS_AC=1, NR=2)
@@ -396,21 +399,22 @@ def denom_case_of_step(acts, step):
 PFM_MC_WITNESS = ["Transfer", "Recv:final", "Recv:forward", "Recv:err", "Ack:ok", "Ack:err", "Ack:fwd-ok", "Ack:fwd-err",
                   "Timeout:plain", "Timeout:giveup", "Timeout:retry", "Terminal:delivered", "Terminal:refunded",
                   "Refund:move", "Refund:burn", "Refund:mint", "Unwind:2", "Depth:3", "BadChannel",
-                  "Refund:move-voucher", "Refund:move-voucher-timeout", "Route:x", "Forward:third-channel"]
-PFM_MC_WITNESS_THOROUGH = ["Route:xb"]
+                  "Refund:move-voucher", "Refund:move-voucher-timeout", "Route:x", "Forward:third-channel", "Mid:valid"]
+PFM_MC_WITNESS_THOROUGH = ["Route:xb", "SendOff:retry-fails", "SendOff:forward-fails", "SendOff:retry-after-on"]
 
 
 def pfm_mc_constants(tier):
     if tier == "quick":
-        return dict(TOKENS={"TA", "TB", "TC", "TX"}, ROUTES={"std", "x"}, DEPTHS={2, 3}, AMTS={7}, RETS={0, 1}, TOS={10},
-                    FINS={"rcvr", "bad"}, BADHOPS={0, 2}, EXPS={0, 5}, MaxJ=1)
+        return dict(TOKENS={"TA", "TC", "TX"}, ROUTES={"std", "x"}, DEPTHS={2, 3}, AMTS={7}, RETS={0, 1}, TOS={10},
+                    FINS={"rcvr", "bad"}, MIDS={"rcvr"}, BADHOPS={0, 2}, EXPS={0, 5}, MaxJ=1, MaxOff=0)
     return dict(TOKENS={"TA", "TB", "TC", "TD", "TX"}, ROUTES={"std", "x", "xb"}, DEPTHS={1, 2, 3}, AMTS={7}, RETS={0, 1}, TOS={10},
-                FINS={"rcvr", "bad"}, BADHOPS={0, 1, 2}, EXPS={0, 5}, MaxJ=1)
+                FINS={"rcvr", "bad"}, MIDS={"pfm", "rcvr"}, BADHOPS={0, 1, 2}, EXPS={0, 5}, MaxJ=1, MaxOff=1)
 
 
 def pfm_sched_constants(tier, depth, outdir):
     return dict(TOKENS={"TA", "TB", "TC", "TD", "TX"}, ROUTES={"std", "x", "xb"}, DEPTHS={1, 2, 3} if tier != "quick" else {2, 3},
-                AMTS={7, 13}, RETS={0, 1}, TOS={10, 3}, FINS={"rcvr", "bad"}, BADHOPS={0, 1, 2}, EXPS={0, 5}, Depth=depth, OutDir=outdir,
+                AMTS={7, 13}, RETS={0, 1}, TOS={10, 3}, FINS={"rcvr", "bad"}, MIDS={"pfm", "rcvr"}, BADHOPS={0, 1, 2}, EXPS={0, 5},
+                Depth=depth, OutDir=outdir, OFF_PCT=15,
                 ADV_PCT=12, TIMEOUT_PCT=35, XI_PCT=8)
 
 
@@ -497,6 +501,51 @@ def pfm_boundary_schedules():
     out.append({"id": "PF-b5", "kind": "PFM", "acts": [
         tr(TD, 7, m), {"a": "Recv", "dt": 1, "pkt": p1}, {"a": "Recv", "dt": 1, "pkt": f1}, {"a": "Recv", "dt": 1, "pkt": f2},
         {"a": "Ack", "dt": 1, "pkt": f2}, {"a": "Ack", "dt": 1, "pkt": f1}, {"a": "Ack", "dt": 1, "pkt": p1}]})
+    # 6. three hops, VALID receivers named for the intermediate hops, the first forward times out and is retried: the retried
+    #    packet must carry the rest of the route and the tokens must reach the final receiver on D
+    m = [_hop("BC", "rcvr", 3, 1), _hop("CD", "rcvr", 10, 0)]
+    TAB = {"t": ["AB@B"], "b": "TA"}
+    p1 = pkt("A", "AB", 1, TA, 7, "user", "rcvr", m, 0)
+    f1 = pkt("B", "BC", 1, TAB, 7, "pfm", "rcvr", m[1:], 6)
+    f2 = pkt("B", "BC", 2, TAB, 7, "pfm", "rcvr", m[1:], 10)
+    g1 = pkt("C", "CD", 1, {"t": ["BC@C", "AB@B"], "b": "TA"}, 7, "pfm", "rcvr", [], 18)
+    out.append({"id": "PF-b6", "kind": "PFM", "acts": [
+        tr(TA, 7, m, "rcvr"), {"a": "Recv", "dt": 1, "pkt": p1}, {"a": "Timeout", "dt": 4, "pkt": f1},
+        {"a": "Recv", "dt": 1, "pkt": f2}, {"a": "Recv", "dt": 1, "pkt": g1},
+        {"a": "Ack", "dt": 1, "pkt": g1}, {"a": "Ack", "dt": 1, "pkt": f2}, {"a": "Ack", "dt": 1, "pkt": p1}]})
+    # 7. the retry of a timed-out forward cannot be sent (transfer parameter SendEnabled of B is false): the timeout
+    #    transaction fails as a whole; after sends are enabled again it is processed and the retry is delivered.
+    #    Native token of B (refund case "move"; the BC escrow holds funds of an earlier, delivered journey)
+    TB = {"t": ["AB@A"], "b": "TB"}
+    TBn = {"t": [], "b": "TB"}
+    m1, m2 = [_hop("BC", "rcvr", 10, 0)], [_hop("BC", "rcvr", 3, 1)]
+    p1 = pkt("A", "AB", 1, TB, 13, "user", "pfm", m1, 0)
+    f1 = pkt("B", "BC", 1, TBn, 13, "pfm", "rcvr", [], 13)
+    p2 = pkt("A", "AB", 2, TB, 7, "user", "pfm", m2, 0)
+    f2 = pkt("B", "BC", 2, TBn, 7, "pfm", "rcvr", [], 11)
+    f3 = pkt("B", "BC", 3, TBn, 7, "pfm", "rcvr", [], 17)
+    out.append({"id": "PF-b7", "kind": "PFM", "acts": [
+        tr(TB, 13, m1), {"a": "Recv", "dt": 1, "pkt": p1}, {"a": "Recv", "dt": 1, "pkt": f1}, {"a": "Ack", "dt": 1, "pkt": f1},
+        {"a": "Ack", "dt": 1, "pkt": p1},
+        tr(TB, 7, m2), {"a": "Recv", "dt": 1, "pkt": p2}, {"a": "SetSend", "dt": 1, "c": "B", "on": False},
+        {"a": "Timeout", "dt": 3, "pkt": f2},                  # tick 12 > 11, retry impossible: rejected, nothing moves
+        {"a": "SetSend", "dt": 1, "c": "B", "on": True},
+        {"a": "Timeout", "dt": 1, "pkt": f2},                  # retried
+        {"a": "Recv", "dt": 1, "pkt": f3}, {"a": "Ack", "dt": 1, "pkt": f3}, {"a": "Ack", "dt": 1, "pkt": p2}]})
+    # 8. the same with a token that unwinds over the forward channel (refund case "mint"), the retry times out as well;
+    #    and a forward that cannot be sent at all (error acknowledgement, the receive is discarded)
+    m = [_hop("BC", "rcvr", 3, 1)]
+    TCB = {"t": ["BC@B"], "b": "TC"}
+    p1 = pkt("A", "AB", 1, TC, 13, "user", "pfm", m, 0)
+    f1 = pkt("B", "BC", 1, TCB, 13, "pfm", "rcvr", [], 6)
+    f2 = pkt("B", "BC", 2, TCB, 13, "pfm", "rcvr", [], 12)
+    p2 = pkt("A", "AB", 2, TC, 7, "user", "pfm", m, 0)
+    out.append({"id": "PF-b8", "kind": "PFM", "acts": [
+        tr(TC, 13, m), {"a": "Recv", "dt": 1, "pkt": p1}, {"a": "SetSend", "dt": 1, "c": "B", "on": False},
+        {"a": "Timeout", "dt": 3, "pkt": f1}, {"a": "SetSend", "dt": 1, "c": "B", "on": True},
+        {"a": "Timeout", "dt": 1, "pkt": f1}, {"a": "Timeout", "dt": 4, "pkt": f2}, {"a": "Ack", "dt": 1, "pkt": p1},
+        {"a": "SetSend", "dt": 1, "c": "B", "on": False}, tr(TC, 7, m), {"a": "Recv", "dt": 1, "pkt": p2},
+        {"a": "Ack", "dt": 1, "pkt": p2}, {"a": "SetSend", "dt": 1, "c": "B", "on": True}]})
     return out
 
 
@@ -555,8 +604,8 @@ def trace_constants(kind, tf):
     if kind == "RL":
         return dict(HOUR=RL_HOUR, TraceFile=tf)
     if kind == "PFM":   # the journey constants are not used by the trace specification
-        return dict(TOKENS={"TA"}, ROUTES={"std"}, DEPTHS={1}, AMTS={1}, RETS={0}, TOS={1}, FINS={"rcvr"}, BADHOPS={0}, EXPS={0},
-                    TraceFile=tf)
+        return dict(TOKENS={"TA"}, ROUTES={"std"}, DEPTHS={1}, AMTS={1}, RETS={0}, TOS={1}, FINS={"rcvr"}, MIDS={"pfm"}, BADHOPS={0},
+                    EXPS={0}, TraceFile=tf)
     return dict(TraceFile=tf)
 
 
